@@ -59,9 +59,11 @@ func (t *gty) lean() string {
 		return "(Option String)"
 	case "slice":
 		return "(List " + t.elem.lean() + ")"
+	case "opt":
+		return "(Option " + t.elem.lean() + ")"
 	case "map":
 		return "(List (" + t.key.lean() + " × " + t.elem.lean() + "))"
-	case "struct":
+	case "struct", "opaque":
 		return t.name
 	case "tuple":
 		var xs []string
@@ -80,7 +82,7 @@ func (t *gty) ok() bool {
 	switch t.k {
 	case "unknown":
 		return false
-	case "slice":
+	case "slice", "opt":
 		return t.elem.ok()
 	case "map":
 		return t.elem.ok() && t.key.ok()
@@ -94,7 +96,43 @@ func (t *gty) ok() bool {
 	return true
 }
 
+// eqSafe: Go's == on this type is the structural equality the Lean model has (no pointer identity inside)
+func (tr *translator) eqSafe(t *gty) bool {
+	switch t.k {
+	case "u64", "u32", "int", "bool", "string", "untyped":
+		return true
+	case "struct":
+		si := tr.structOf(t)
+		if si == nil || si.hasPtr || len(si.skipped) > 0 {
+			return false
+		}
+		for _, f := range si.fields {
+			if !tr.eqSafe(si.ftypes[f]) {
+				return false
+			}
+		}
+		return true
+	}
+	return false
+}
+
 func (t *gty) isNum() bool { return t.k == "u64" || t.k == "u32" || t.k == "int" }
+
+// pointers to these foreign types are opaque tokens (`abbrev <name> := Nat`): the translated code never looks inside
+var foreignOpaque = map[string]string{"btcec.PublicKey": "PublicKey"}
+
+// calls that leave the translated set but whose RESULT the code branches on: they become explicit function
+// parameters of the generated definition (the tie theorem then quantifies over / instantiates their behaviour)
+type extFn struct {
+	param  string // name of the parameter
+	lean   string // its Lean type
+	result *gty
+}
+
+var externals = map[string]*extFn{
+	"strconv.ParseInt":      {"ext_ParseInt", "String → Int → Int → Int × Option String", &gty{k: "tuple", items: []*gty{tInt, tError}}},
+	"nut11.ParsePublicKey":  {"ext_ParsePublicKey", "String → PublicKey × Option String", &gty{k: "tuple", items: []*gty{{k: "opaque", name: "PublicKey"}, tError}}},
+}
 
 type trErr struct{ msg string }
 
@@ -105,6 +143,7 @@ type structInfo struct {
 	fields  []string
 	ftypes  map[string]*gty
 	skipped []string
+	hasPtr  bool
 	emitted bool
 }
 
@@ -119,6 +158,7 @@ type funcInfo struct {
 	fuel   bool
 	done   bool
 	text   string
+	exts   []string
 }
 
 type translator struct {
@@ -128,6 +168,8 @@ type translator struct {
 	structOrd []string
 	funcs     map[string]*funcInfo // key pkg.Recv.Name
 	used      map[string]bool      // lean names in use inside the current function
+	opaqueUsed map[string]bool
+	extUsed   []string             // externals used by the current function (in order of first use)
 }
 
 func (tr *translator) findType(pk, name string) ast.Expr {
@@ -161,7 +203,7 @@ func (tr *translator) resolve(pk string, e ast.Expr) *gty {
 			return tU64
 		case "uint32":
 			return tU32
-		case "int":
+		case "int", "int64":
 			return tInt
 		case "bool":
 			return tBool
@@ -176,6 +218,11 @@ func (tr *translator) resolve(pk string, e ast.Expr) *gty {
 			return tr.named(id.Name, x.Sel.Name)
 		}
 	case *ast.StarExpr:
+		if name, ok := foreignOpaque[exprString(x.X)]; ok {
+			// a pointer to a foreign type that the translated code only passes around: an opaque token
+			tr.opaqueUsed[name] = true
+			return &gty{k: "opaque", name: name}
+		}
 		t := tr.resolve(pk, x.X)
 		if t.k == "struct" {
 			return t
@@ -212,8 +259,16 @@ func (tr *translator) named(pk, name string) *gty {
 		tr.structs[key] = si // registered first: recursive references resolve to the name
 		for _, f := range st.Fields.List {
 			var ft *gty
-			if _, ptr := f.Type.(*ast.StarExpr); ptr {
-				ft = tUnknown // a pointer FIELD is compared by identity in Go: not modelled
+			if se, ptr := f.Type.(*ast.StarExpr); ptr {
+				// a pointer FIELD to a modelled struct is an Option (nil = none); the struct then loses `==` (Go compares
+				// pointers by identity): eqSafe refuses every == / map key on it
+				inner := tr.resolve(pk, se.X)
+				if inner.k == "struct" && inner.ok() {
+					ft = &gty{k: "opt", elem: inner}
+					si.hasPtr = true
+				} else {
+					ft = tUnknown
+				}
 			} else {
 				ft = tr.resolve(pk, f.Type)
 			}
@@ -314,6 +369,8 @@ func zeroOf(t *gty) string {
 		return "([] : " + t.lean() + ")"
 	case "error":
 		return "(none : Option String)"
+	case "opt":
+		return "(none : " + t.lean() + ")"
 	}
 	return "(default : " + t.lean() + ")"
 }
@@ -357,6 +414,9 @@ func (c *fctx) expr(s *scope, e ast.Expr, hint *gty) (string, *gty) {
 			if hint != nil && (hint.k == "slice" || hint.k == "map") {
 				return zeroOf(hint), hint
 			}
+			if hint != nil && hint.k == "opt" {
+				return "(none : " + hint.lean() + ")", hint
+			}
 			trFail("nil without a slice/map/error context")
 		}
 		if v := s.lookup(x.Name); v != nil {
@@ -395,8 +455,23 @@ func (c *fctx) expr(s *scope, e ast.Expr, hint *gty) (string, *gty) {
 			trFail("field %s.%s is not modelled (pointer, function or foreign type)", bt.name, x.Sel.Name)
 		}
 		return base + "." + x.Sel.Name, ft
+	case *ast.CompositeLit:
+		t := c.tr.resolve(c.fi.pkg, x.Type)
+		if t.k == "struct" && len(x.Elts) == 0 {
+			return "(default : " + t.lean() + ")", t
+		}
+		trFail("composite literal (only the zero value T{} is supported)")
 	case *ast.UnaryExpr:
 		switch x.Op {
+		case token.AND:
+			a, t := c.expr(s, x.X, nil)
+			if t.k != "struct" {
+				trFail("& of a non-struct")
+			}
+			if hint != nil && hint.k == "opt" {
+				return "(some " + a + ")", hint
+			}
+			return a, t
 		case token.NOT:
 			a, _ := c.expr(s, x.X, tBool)
 			return "(!" + a + ")", tBool
@@ -411,6 +486,9 @@ func (c *fctx) expr(s *scope, e ast.Expr, hint *gty) (string, *gty) {
 		base, bt := c.expr(s, x.X, nil)
 		switch bt.k {
 		case "map":
+			if !c.tr.eqSafe(bt.key) {
+				trFail("map keyed by a type whose == is not structural (pointer inside)")
+			}
 			k, _ := c.expr(s, x.Index, bt.key)
 			return "(Go.mapGet " + base + " " + k + ")", bt.elem
 		case "slice":
@@ -496,6 +574,31 @@ func (c *fctx) binary(s *scope, x *ast.BinaryExpr, hint *gty) (string, *gty) {
 	arith := map[token.Token]string{token.ADD: "+", token.SUB: "-", token.MUL: "*", token.AND: "&&&", token.OR: "|||", token.XOR: "^^^"}
 	_, isCmp := cmp[x.Op]
 	isEq := x.Op == token.EQL || x.Op == token.NEQ
+	if isEq {
+		isNil := func(e ast.Expr) bool { id, ok := e.(*ast.Ident); return ok && id.Name == "nil" && s.lookup("nil") == nil }
+		var other ast.Expr
+		if isNil(x.Y) {
+			other = x.X
+		} else if isNil(x.X) {
+			other = x.Y
+		}
+		if other != nil {
+			v, vt := c.expr(s, other, nil)
+			var test string
+			switch vt.k {
+			case "slice":
+				test = "(List.isEmpty " + v + ")" // a nil slice and an empty slice are the same list here
+			case "opt", "error":
+				test = "(Option.isNone " + v + ")"
+			default:
+				trFail("comparison of %s with nil", vt.k)
+			}
+			if x.Op == token.NEQ {
+				test = "(!" + test + ")"
+			}
+			return test, tBool
+		}
+	}
 	var h *gty
 	if !isCmp && !isEq {
 		h = hint
@@ -522,6 +625,9 @@ func (c *fctx) binary(s *scope, x *ast.BinaryExpr, hint *gty) (string, *gty) {
 		return "(decide (" + a + " " + cmp[x.Op] + " " + b + "))", tBool
 	}
 	if isEq {
+		if !c.tr.eqSafe(at) {
+			trFail("== on %s is not structural equality in Go (pointer inside) or the type is not comparable", at.lean())
+		}
 		if x.Op == token.EQL {
 			return "(" + a + " == " + b + ")", tBool
 		}
@@ -552,7 +658,64 @@ func (c *fctx) binary(s *scope, x *ast.BinaryExpr, hint *gty) (string, *gty) {
 	return "", nil
 }
 
+func (c *fctx) external(s *scope, key string, x *ast.CallExpr) (string, *gty) {
+	ef := externals[key]
+	seen := false
+	for _, u := range c.tr.extUsed {
+		if u == key {
+			seen = true
+		}
+	}
+	if !seen {
+		c.tr.extUsed = append(c.tr.extUsed, key)
+	}
+	if ef.result.k == "tuple" {
+		for _, it := range ef.result.items {
+			if it.k == "opaque" {
+				c.tr.opaqueUsed[it.name] = true
+			}
+		}
+	}
+	parts := []string{ef.param}
+	for _, a := range x.Args {
+		v, vt := c.expr(s, a, nil)
+		if vt.k == "untyped" {
+			v, _ = c.expr(s, a, tInt)
+		}
+		parts = append(parts, v)
+	}
+	return "(" + strings.Join(parts, " ") + ")", ef.result
+}
+
 func (c *fctx) call(s *scope, x *ast.CallExpr, hint *gty) (string, *gty) {
+	if sel, ok := x.Fun.(*ast.SelectorExpr); ok {
+		if id, ok := sel.X.(*ast.Ident); ok && s.lookup(id.Name) == nil {
+			key := id.Name + "." + sel.Sel.Name
+			if _, ok := externals[key]; ok {
+				return c.external(s, key, x)
+			}
+			if key == "fmt.Sprintf" {
+				// only the FORMAT is kept: the rendered arguments never influence control flow in the translated set
+				if bl, ok := x.Args[0].(*ast.BasicLit); ok && bl.Kind == token.STRING {
+					return "(Go.sprintf " + bl.Value + ")", tString
+				}
+				trFail("Sprintf with a computed format")
+			}
+			if key == "cashu.BuildCashuError" {
+				// an error VALUE built from a message: identified by the message
+				m, mt := c.expr(s, x.Args[0], tString)
+				if mt.k != "string" {
+					trFail("BuildCashuError message")
+				}
+				return "(some " + m + ")", tError
+			}
+		}
+	}
+	if id, ok := x.Fun.(*ast.Ident); ok && s.lookup(id.Name) == nil {
+		if _, ok := externals[c.fi.pkg+"."+id.Name]; ok && c.tr.funcs[c.fi.pkg+".."+id.Name] == nil {
+			return c.external(s, c.fi.pkg+"."+id.Name, x)
+		}
+	}
 	if id, ok := x.Fun.(*ast.Ident); ok && s.lookup(id.Name) == nil {
 		switch id.Name {
 		case "len":
@@ -647,6 +810,9 @@ func (c *fctx) callFn(s *scope, fi *funcInfo, recv *string, args []ast.Expr) (st
 	if fi.fuel {
 		trFail("call of %s, which needs fuel", fi.lean)
 	}
+	if len(fi.exts) > 0 {
+		trFail("call of %s, which has external parameters", fi.lean)
+	}
 	parts := []string{fi.lean}
 	ps := fi.params
 	if recv != nil {
@@ -677,6 +843,11 @@ func assigned(stmts []ast.Stmt, s *scope) []string {
 		for {
 			if ix, ok := e.(*ast.IndexExpr); ok {
 				e = ix.X
+				define = false
+				continue
+			}
+			if se, ok := e.(*ast.SelectorExpr); ok {
+				e = se.X
 				define = false
 				continue
 			}
@@ -884,6 +1055,50 @@ func (c *fctx) block(s *scope, stmts []ast.Stmt, d int, k func() string) string 
 			out += c.block(inner, []ast.Stmt{e}, d+1, next)
 		}
 		return out + ind(d) + ")\n"
+	case *ast.SwitchStmt:
+		if x.Init != nil {
+			trFail("switch with an initialiser")
+		}
+		var chain ast.Stmt
+		var dflt *ast.CaseClause
+		var clauses []*ast.CaseClause
+		for _, cc := range x.Body.List {
+			cl := cc.(*ast.CaseClause)
+			ast.Inspect(cl, func(n ast.Node) bool {
+				if b, ok := n.(*ast.BranchStmt); ok && (b.Tok == token.FALLTHROUGH || b.Tok == token.BREAK) {
+					trFail("fallthrough / break inside a switch")
+				}
+				return true
+			})
+			if cl.List == nil {
+				dflt = cl
+			} else {
+				clauses = append(clauses, cl)
+			}
+		}
+		if dflt != nil {
+			chain = &ast.BlockStmt{List: dflt.Body}
+		}
+		for i := len(clauses) - 1; i >= 0; i-- {
+			cl := clauses[i]
+			var cond ast.Expr
+			for _, e := range cl.List {
+				var t ast.Expr = e
+				if x.Tag != nil {
+					t = &ast.BinaryExpr{X: x.Tag, Op: token.EQL, Y: e}
+				}
+				if cond == nil {
+					cond = t
+				} else {
+					cond = &ast.BinaryExpr{X: cond, Op: token.LOR, Y: t}
+				}
+			}
+			chain = &ast.IfStmt{Cond: cond, Body: &ast.BlockStmt{List: cl.Body}, Else: chain}
+		}
+		if chain == nil {
+			return next()
+		}
+		return c.block(s, append([]ast.Stmt{chain}, rest...), d, k)
 	case *ast.RangeStmt:
 		return c.rangeLoop(s, x, d, next)
 	case *ast.ForStmt:
@@ -976,8 +1191,20 @@ func (c *fctx) assign(s *scope, x *ast.AssignStmt, d int) string {
 			trFail("indexed assignment to a non-variable")
 		}
 		v := s.lookup(id.Name)
+		if v != nil && v.t.k == "slice" {
+			i, it := c.expr(s, ix.Index, tInt)
+			val, vt := c.expr(s, x.Rhs[0], v.t.elem)
+			if vt.lean() != v.t.elem.lean() {
+				trFail("slice element type")
+			}
+			// Go panics when the index is out of range; List.set leaves the list unchanged
+			return ind(d) + "let " + v.lean + " : " + v.t.lean() + " := List.set " + v.lean + " " + c.toNat(i, it) + " " + val + "\n"
+		}
 		if v == nil || v.t.k != "map" {
-			trFail("indexed assignment supported on maps only")
+			trFail("indexed assignment supported on maps and slices only")
+		}
+		if !c.tr.eqSafe(v.t.key) {
+			trFail("map keyed by a type whose == is not structural (pointer inside)")
 		}
 		k, _ := c.expr(s, ix.Index, v.t.key)
 		val, vt := c.expr(s, x.Rhs[0], v.t.elem)
@@ -985,6 +1212,26 @@ func (c *fctx) assign(s *scope, x *ast.AssignStmt, d int) string {
 			trFail("map value type")
 		}
 		return ind(d) + "let " + v.lean + " : " + v.t.lean() + " := Go.mapSet " + v.lean + " " + k + " " + val + "\n"
+	}
+	if sel, ok := x.Lhs[0].(*ast.SelectorExpr); ok && !define {
+		// x.F = v on a local struct VALUE (a copy: e.g. the range variable)
+		id, ok := sel.X.(*ast.Ident)
+		if !ok {
+			trFail("field assignment through %T", sel.X)
+		}
+		v := s.lookup(id.Name)
+		if v == nil || v.t.k != "struct" {
+			trFail("field assignment on a non-struct variable")
+		}
+		ft, ok := c.tr.structOf(v.t).ftypes[sel.Sel.Name]
+		if !ok {
+			trFail("assignment to the unmodelled field %s", sel.Sel.Name)
+		}
+		val, vt := c.expr(s, x.Rhs[0], ft)
+		if vt.lean() != ft.lean() {
+			trFail("field value type")
+		}
+		return ind(d) + "let " + v.lean + " : " + v.t.lean() + " := { " + v.lean + " with " + sel.Sel.Name + " := " + val + " }\n"
 	}
 	id, ok := x.Lhs[0].(*ast.Ident)
 	if !ok {
@@ -1238,6 +1485,9 @@ func (tr *translator) addFunc(pk, recv, name string) {
 	if recv != "" {
 		lean = recv + "_" + name
 	}
+	if strings.HasPrefix(pk, "nut") {
+		lean = pk + "_" + lean
+	}
 	fi := &funcInfo{pkg: pk, recv: recv, name: name, lean: lean, fd: fd}
 	key := pk + "." + recv + "." + name
 	tr.funcs[key] = fi
@@ -1258,6 +1508,9 @@ func (tr *translator) signature(fi *funcInfo) {
 	if fd.Type.Results != nil {
 		for _, f := range fd.Type.Results.List {
 			t := tr.resolve(fi.pkg, f.Type)
+			if _, ptr := f.Type.(*ast.StarExpr); ptr && t.k == "struct" {
+				t = &gty{k: "opt", elem: t} // a *T RESULT may be nil
+			}
 			n := len(f.Names)
 			if n == 0 {
 				n = 1
@@ -1295,6 +1548,7 @@ func (tr *translator) translate(fi *funcInfo) (text string, err string) {
 		trFail("result of an unmodelled type")
 	}
 	tr.used = map[string]bool{}
+	tr.extUsed = nil
 	top := &scope{vars: map[string]*varInfo{}}
 	var binders []string
 	if fi.fuel {
@@ -1331,6 +1585,12 @@ func (tr *translator) translate(fi *funcInfo) (text string, err string) {
 		resTy = "Option " + resTy
 	}
 	body := c.block(top, fd.Body.List, 1, func() string { return ind(1) + "default\n" })
+	var extB []string
+	for _, key := range tr.extUsed {
+		extB = append(extB, "("+externals[key].param+" : "+externals[key].lean+")")
+	}
+	fi.exts = tr.extUsed
+	binders = append(extB, binders...)
 	pos := fset.Position(fd.Pos())
 	text = fmt.Sprintf("/-- `%s` (%s:%d) -/\ndef %s %s : %s :=\n%s", fi.name, shortPath(pos.Filename), pos.Line, fi.lean, strings.Join(binders, " "), resTy, body)
 	return text, ""
@@ -1348,7 +1608,7 @@ type trTarget struct{ pkg, recv, name string }
 
 // emitCode writes Gonuts/Gen/Code.lean
 func emitCode(pkgs map[string]*pkg, consts map[string]constEnv, targets []trTarget) string {
-	tr := &translator{pkgs: pkgs, consts: consts, structs: map[string]*structInfo{}, funcs: map[string]*funcInfo{}}
+	tr := &translator{pkgs: pkgs, consts: consts, structs: map[string]*structInfo{}, funcs: map[string]*funcInfo{}, opaqueUsed: map[string]bool{}}
 	var order []*funcInfo
 	for _, t := range targets {
 		if findFunc(pkgs[t.pkg], t.recv, t.name) == nil {
@@ -1380,6 +1640,14 @@ func emitCode(pkgs map[string]*pkg, consts map[string]constEnv, targets []trTarg
 	var sb strings.Builder
 	sb.WriteString("/- GENERATED by /verif/extract (translate.go) from the Go source — do not edit; regenerated on every check run. -/\n")
 	sb.WriteString("import Gonuts.Model.GoSem\nset_option linter.unusedVariables false\nnamespace Gonuts.Gen.Code\nopen Gonuts.Model\n\n")
+	var ops []string
+	for n := range tr.opaqueUsed {
+		ops = append(ops, n)
+	}
+	sort.Strings(ops)
+	for _, n := range ops {
+		sb.WriteString("/-- a pointer to a foreign type that the translated code only passes around: an opaque token -/\nabbrev " + n + " := Nat\n\n")
+	}
 	// structures, dependencies first (registration order is use order; a struct's fields were resolved before it was appended)
 	for _, key := range tr.structOrd {
 		si := tr.structs[key]
